@@ -1,8 +1,7 @@
 (* Model/ExprRoundtrip.v -- the vocabulary of the round-trip half of C13:
      printable c dd e  : the expression objects for which parse (to_python e) = Ok e  (a boolean; every condition is
                          local to one node and is what the walker itself checks when it builds that node)
-     src_ok d          : sanity of a source AST that the lexer guarantees or that a listed known finding excludes
-     expr_kf_ok e      : the remaining known-finding guards, on the parsed expression
+     src_ok d          : what the lexer guarantees of a source AST (NAME tokens are not operator / keyword texts)
      dtree_of want e   : the AST (with its parentheses) of the text `e.to_python(want_inline_parens=want)`
    No proofs here. *)
 From Coq Require Import List Bool String Ascii ZArith NArith QArith Arith.
@@ -21,21 +20,8 @@ Definition kops : list string := ["+"; "*"; "and"; "or"].
 Definition bin2_ops : list string := ["-"; "/"; "//"; "%"; "%/%"; "**"; "=="; "!="; "<"; "<="; ">"; ">="].
 
 Definition is_sym_text (s : string) : bool := existsb (String.eqb s) sym_texts.
-Definition is_dunder (s : string) : bool := String.prefix "__" s.
 Definition is_value (e : expr) : bool := match e with EVal _ => true | _ => false end.
 Definition is_inf (v : pval) : bool := match v with PInf _ => true | _ => false end.
-Definition is_negzero (e : expr) : bool :=
-  match e with EVal (PFloat true m) => Qeq_bool m 0%Q | _ => false end.
-
-(* a list literal is read back item by item when it has two or more items; a one-item list only when that item
-   is a single literal token (a non-negative number or a string): see the known finding on short lists *)
-Definition list_shape_ok (vs : list pval) : bool :=
-  match vs with
-  | [] => false
-  | [v] => match v with PInt z => Z.leb 0 z | PFloat neg _ => negb neg | PStr _ => true | _ => false end
-  | _ => true
-  end.
-
 Fixpoint distinct_keys (kvs : list (pval * pval)) : bool :=
   match kvs with
   | [] => true
@@ -47,7 +33,7 @@ Fixpoint printable (c : cfg) (dd : list string) (e : expr) {struct e} : bool :=
   | ECol n => mem_str n dd && negb (is_sym_text n)
   | EVal v => negb (is_inf v)
   | EList vs =>
-      list_shape_ok vs && negb (existsb is_inf vs) && negb (existsb (fun v => pval_eqb v PNone) vs)
+      negb (existsb is_inf vs) && negb (existsb (fun v => pval_eqb v PNone) vs)
       && compatible_types (map type_of vs)
   | EDict kvs =>
       negb (match kvs with [] => true | _ => false end)
@@ -68,10 +54,9 @@ Fixpoint printable (c : cfg) (dd : list string) (e : expr) {struct e} : bool :=
                   if mem_str op kops then true
                   else mem_str op bin2_ops && (match more with [] => true | _ => false end)
                        && res_expr_eqb (call_method c (remap op_remap op) a [b]) (Ok (EOp op inline method params args))
-                       && negb ((op ==s "**") && is_negzero a)
               end
          else if method then
-           negb (is_sym_text op)
+           negb (is_sym_text op) && negb (is_dunder op)
            && match args with
               | self :: rest => res_expr_eqb (call_method c op self rest) (Ok (EOp op inline method params args))
               | [] => false
@@ -79,8 +64,7 @@ Fixpoint printable (c : cfg) (dd : list string) (e : expr) {struct e} : bool :=
          else negb (is_sym_text op) && mem_str op (known c)
   end.
 
-(* ---- source ASTs: what the lexer guarantees (NAME tokens are not operator or keyword texts) and two
-   known-finding guards (no call of a dunder method written in the text; every callee is NAME or expr.NAME) *)
+(* ---- source ASTs: what the lexer guarantees -- a NAME token is never an operator or keyword text *)
 Fixpoint src_ok (d : dtree) : bool :=
   match d with
   | DPar x | DNot x | DFactor _ x => src_ok x
@@ -88,24 +72,10 @@ Fixpoint src_ok (d : dtree) : bool :=
   | DNum _ | DStr _ | DConst _ => true
   | DChain _ d0 rest => src_ok d0 && forallb (fun p => src_ok (snd p)) rest
   | DPower b e => src_ok b && src_ok e
-  | DCall f args _ =>
-      (match f with DName _ => true | DAttr _ _ => true | _ => false end) && src_ok f && forallb src_ok args
-  | DAttr o n => negb (is_sym_text n) && negb (is_dunder n) && src_ok o
+  | DCall f args _ => src_ok f && forallb src_ok args
+  | DAttr o n => negb (is_sym_text n) && src_ok o
   | DColl _ items _ => forallb src_ok items
   | DDict items _ => forallb (fun kv => src_ok (fst kv) && src_ok (snd kv)) items
-  end.
-
-(* ---- the parsed expression: no infinite constant, no list with fewer than two items,
-   no negative zero as the base of ** *)
-Fixpoint expr_kf_ok (e : expr) : bool :=
-  match e with
-  | ECol _ => true
-  | EVal v => negb (is_inf v)
-  | EList vs => list_shape_ok vs && negb (existsb is_inf vs)
-  | EDict kvs => negb (existsb (fun kv => is_inf (fst kv) || is_inf (snd kv)) kvs)
-  | EOp op _ _ _ args =>
-      forallb expr_kf_ok args
-      && negb ((op ==s "**") && match args with a :: _ => is_negzero a | [] => false end)
   end.
 
 (* ---- the AST of the printed text *)
@@ -127,7 +97,7 @@ Definition binop_level (op : string) : nat := match binlvl op with Some l => l |
 Fixpoint dtree_of (want : bool) (e : expr) {struct e} : dtree :=
   match e with
   | ECol n => DName n
-  | EVal v => par_when (want && num_is_neg v) (dval v)
+  | EVal v => par_when (want && prints_with_sign v) (dval v)
   | EList vs => DColl BBrack (map dval vs) false
   | EDict kvs => DDict (map (fun kv => (dval (fst kv), dval (snd kv))) kvs) false
   | EOp op inline method _ args =>
